@@ -51,6 +51,11 @@ class WorkerState:
         self.best_key = None
         self.after_budget = 0
         self.notes = {}
+        # memory: XLA/LLVM never return the memory of compiled executables; a worker whose resident set passes the
+        # limit stops judging (remaining examples are "deferred") and the parent continues them in a fresh process
+        self.rss_limit_mb = int(os.environ.get("VERIF_RSS_LIMIT_MB", "1500"))
+        self.recycle = False
+        self.deferred = 0
 
     def judge(self, spec):
         """Judge one spec; returns the violations that are not covered by an open finding."""
@@ -65,6 +70,8 @@ class WorkerState:
             jax.clear_caches()
             gc.collect()
         out = self.mod.judge(spec, self.tier)
+        if self.judged % 10 == 0 and not self.recycle and _rss_mb() > self.rss_limit_mb:
+            self.recycle = True
         self.evals += out.evals
         self.nontrivial.update(out.nontrivial_keys)
         for c in out.classes:
@@ -106,6 +113,9 @@ class WorkerState:
         if self.fail_t0 is None and now > self.deadline:
             self.timed_out_calls += 1
             return
+        if self.fail_t0 is None and self.recycle:
+            self.deferred += 1
+            return
         out, new = self.judge(spec)
         if len(self.samples) < 3:
             self.samples.append(spec)
@@ -127,10 +137,19 @@ class ViolationFound(Exception):
     pass
 
 
+def _rss_mb():
+    try:
+        with open("/proc/self/statm") as fh:
+            return int(fh.read().split()[1]) * os.sysconf("SC_PAGE_SIZE") / 2**20
+    except Exception:  # noqa: BLE001
+        return 0.0
+
+
 def _worker(args):
-    cid, tier, seed, widx, nworkers, budget, shrink_budget, deadline = args
+    cid, tier, seed, widx, nworkers, budget, shrink_budget, deadline = args[:8]
+    rnd, enum_start = (args[8], args[9]) if len(args) > 8 else (0, 0)  # continuation of a recycled worker
     t0 = time.time()
-    res = {"widx": widx, "error": None}
+    res = {"widx": widx, "error": None, "round": rnd}
     try:
         core.setup_env()
         from hypothesis import HealthCheck, Phase, given, settings
@@ -146,7 +165,7 @@ def _worker(args):
         st = WorkerState(mod, tier, preds, shrink_budget, deadline)
         strat = mod.strategy(tier)
 
-        @hseed(_derive_seed(seed, cid, widx))
+        @hseed(_derive_seed(seed, cid, widx + 1000 * rnd))
         @settings(
             database=None,
             deadline=None,
@@ -166,7 +185,13 @@ def _worker(args):
         if hasattr(mod, "enumerate_cases"):
             # bounded exhaustive sub-run, sharded over the workers (no Hypothesis involved)
             cases = mod.enumerate_cases(tier)
-            for spec in cases[widx::nworkers]:
+            shard = cases[widx::nworkers] if enum_start is not None else []
+            for k_enum, spec in enumerate(shard):
+                if k_enum < enum_start:
+                    continue
+                if st.recycle:
+                    res["enum_next"] = k_enum
+                    break
                 if time.time() > deadline:
                     st.timed_out_calls += 1
                     continue
@@ -179,7 +204,9 @@ def _worker(args):
                     failure = "violation"
                     break
         try:
-            if failure is None:
+            if failure is None and "enum_next" in res:
+                st.deferred = budget  # the whole generated part is left to the continuation
+            elif failure is None and budget > 0:
                 test()
         except ViolationFound:
             failure = "violation"
@@ -201,8 +228,9 @@ def _worker(args):
                 res["error"] = "flaky: remembered failing spec passed on re-judging: " + core.canon(
                     st.best[1]
                 )[:2000]
+        res["deferred"] = 0 if failure else st.deferred
         res.update(
-            calls=st.calls,
+            calls=st.calls - st.deferred,
             evals=st.evals,
             nontrivial=sorted(st.nontrivial),
             classes=st.classes,
@@ -339,22 +367,37 @@ def main(argv=None):
 
     rep_results, results = [], []
     pool_error = None
-    with ProcessPoolExecutor(max_workers=nworkers, mp_context=ctx) as pool:
+    import concurrent.futures as cf
+
+    recycled = 0
+    # max_tasks_per_child=1: every task (also the continuation of a recycled worker) gets a fresh process
+    with ProcessPoolExecutor(max_workers=nworkers, mp_context=ctx, max_tasks_per_child=1) as pool:
         rep_f = []
         if files:
             shards = [files[i::4] for i in range(min(4, len(files)))]
             rep_f = [pool.submit(_replay_worker, (cid, tier, s)) for s in shards]
-        gen_f = [pool.submit(_worker, j) for j in jobs]
+        pending = {pool.submit(_worker, j): j for j in jobs}
         for f in rep_f:
             try:
                 rep_results.append(f.result())
             except BaseException as e:  # noqa: BLE001
                 pool_error = f"replay worker died: {type(e).__name__}: {e}"
-        for w, f in enumerate(gen_f):
-            try:
-                results.append(f.result())
-            except BaseException as e:  # noqa: BLE001
-                pool_error = f"worker {w} died: {type(e).__name__}: {e}"
+        while pending and not pool_error:
+            done, _ = cf.wait(list(pending), return_when=cf.FIRST_COMPLETED)
+            for f in done:
+                j = pending.pop(f)
+                try:
+                    r = f.result()
+                except BaseException as e:  # noqa: BLE001
+                    pool_error = f"worker {j[3]} died: {type(e).__name__}: {e}"
+                    break
+                results.append(r)
+                more = (r.get("deferred", 0) > 0 or "enum_next" in r) and not r.get("error") and "failure" not in r
+                if more and time.time() < deadline:
+                    recycled += 1
+                    rnd = (j[8] if len(j) > 8 else 0) + 1
+                    nj = j[:5] + (r["deferred"],) + j[6:8] + (rnd, r.get("enum_next", None))
+                    pending[pool.submit(_worker, nj)] = nj
     if pool_error:
         errors.append(pool_error)
 
@@ -484,6 +527,7 @@ def main(argv=None):
             "cases_skipped_by_wall_guard": agg["timed_out_calls"],
             "replayed": replayed,
             "workers": nworkers,
+            "worker_processes_recycled_for_memory": recycled,
             "per_worker_budget": budget,
             "notes": agg["notes"],
             "exhaustive": False,
